@@ -29,6 +29,80 @@ def reserved : List Nat := [0o100, 0o10, 0o1000]
     one to four octal digits each in 1..5" (`[]` is address 0). -/
 def ValidAddr (a : Nat) : Prop := a ∈ reserved ∨ ∃ ds, IsNode ds ∧ val ds = a
 
+/-! ### C04 — routing over the tree and physical addresses, on digit lists
+
+Written from docs/network_docs/topology.rst ("a node's parent is found by dropping the most
+significant octal digit", "each node listens to its parent on pipe 0 … children on pipes 1-5",
+"physical addresses are built from `address_prefix` and `address_suffix`"), never from the
+implementation. -/
+
+/-- the parent of a node (the master `[]` has none; `[].dropLast = []`) -/
+def parent (ds : List Nat) : List Nat := ds.dropLast
+
+/-- The only tree neighbour of `s` on the way to `d`: if `s` is an ancestor of `d` (a prefix),
+    the child of `s` that is an ancestor of `d` (or `d` itself); otherwise the parent of `s`. -/
+def nextHopSpec (s d : List Nat) : List Nat :=
+  if s <+: d then d.take (s.length + 1) else parent s
+
+/-- longest common prefix = the deepest common ancestor -/
+def lcp : List Nat → List Nat → List Nat
+  | a :: s, b :: d => if a = b then a :: lcp s d else []
+  | _, _ => []
+
+/-- number of edges of the tree path from `s` to `d` -/
+def dist (s d : List Nat) : Nat := s.length + d.length - 2 * (lcp s d).length
+
+/-- the unique tree path from `s` to `d`: `s`, its ancestors up to (excluding) the common ancestor,
+    then from the common ancestor down to `d` -/
+def treePath (s d : List Nat) : List (List Nat) :=
+  let c := (lcp s d).length
+  ((List.range (s.length - c)).map fun i => s.take (s.length - i)) ++
+  ((List.range (d.length - c + 1)).map fun i => d.take (c + i))
+
+/-- position after `n` hops when every node forwards according to `nextHopSpec` -/
+def hops : Nat → List Nat → List Nat → List Nat
+  | 0, s, _ => s
+  | n + 1, s, d => hops n (nextHopSpec s d) d
+
+/-- the nodes visited, hop by hop, until the destination is reached (at most `fuel` hops) -/
+def routeSpec : Nat → List Nat → List Nat → List (List Nat)
+  | 0, s, _ => [s]
+  | f + 1, s, d => if s = d then [s] else s :: routeSpec f (nextHopSpec s d) d
+
+/-- bytes of `address_suffix` selected by a digit list (`none` if a digit has no suffix byte) -/
+def mapSfx (sfx : List Nat) : List Nat → Option (List Nat)
+  | [] => some []
+  | d :: ds =>
+    match sfx[d]?, mapSfx sfx ds with
+    | some b, some bs => some (b :: bs)
+    | _, _ => none
+
+/-- The 5-byte physical address of pipe `p` of node `ds`: the pipe's suffix byte, then one suffix
+    byte per digit (least significant digit first), padded with the prefix byte. -/
+def physAddrSpec (pfx : Nat) (sfx : List Nat) (ds : List Nat) (p : Nat) : Option Bytes :=
+  match sfx[p]?, mapSfx sfx ds with
+  | some b0, some mid => some (b0 :: (mid ++ List.replicate (4 - mid.length) pfx))
+  | _, _ => none
+
+/-- The address shared by all nodes of network level `L` (their pipe 0 when multicast is allowed):
+    the prefix byte everywhere except byte 1 = the suffix byte of the level; level 0 (the master
+    alone) keeps the master's own pipe-0 address. -/
+def levelAddrSpec (pfx : Nat) (sfx : List Nat) (L : Nat) : Option Bytes :=
+  if L = 0 then physAddrSpec pfx sfx [] 0
+  else match sfx[L]? with
+    | some b => some [pfx, b, pfx, pfx, pfx]
+    | none => none
+
+/-- what node `ds` must listen on, pipe 0..5 (`am` = allow_multicast) -/
+def listenSpec (pfx : Nat) (sfx : List Nat) (am : Bool) (ds : List Nat) (p : Nat) : Option Bytes :=
+  if p = 0 ∧ am then levelAddrSpec pfx sfx ds.length else physAddrSpec pfx sfx ds p
+
+/-- octal digits of a number, least significant first (`digitsOf 0 = []`); inverse of `val` -/
+def digitsOf (n : Nat) : List Nat :=
+  if h : n = 0 then [] else (n % 8) :: digitsOf (n / 8)
+termination_by n
+decreasing_by omega
+
 /-- all digit lists of exactly length `n` over 1..5 -/
 def nodesOfLen : Nat → List (List Nat)
   | 0 => [[]]
